@@ -38,7 +38,8 @@ class Check:
     scenario_wall_limit = 1200.0
     shrink_runs = 40
     shrink_wall_s = 600.0
-    rule = ('group = one generated C project (C05 generator + pkgconfig.generate, configure_file in configuration/copy/command mode, tests with '
+    rule = ('group = one generated C project (C05 generator + pkgconfig.generate, configure_file in configuration/copy/command mode and from input templates (meson/cmake/cmake@ format; LF, CRLF, CR, '
+            'mixed line endings; latin-1), tests with '
             'env and depends, install rules, a subproject, several .wrap files) + one option set, configured 5-8 times at the same build-dir '
             'path: baseline (hash seed 0, identity permutations, fresh) and variants with drawn PYTHONHASHSEED, permuted and padded environment, '
             'permuted directory listings, and histories fresh / fresh+reconfigure / other-value+configure-back+reconfigure / wipe; plus one '
@@ -84,6 +85,10 @@ class Check:
             'cc_checks': rng.random() < 0.6,
             'ext_deps': rng.random() < 0.6,
         }
+        # configure_file(input:, configuration:) templates in each variable format and line-ending convention
+        extras['templates'] = [{'fmt': rng.choice(['meson', 'cmake', 'cmake@']), 'nl': rng.choice(['lf', 'crlf', 'crlf', 'mixed', 'cr']),
+                                'exec': rng.random() < 0.3, 'encoding': rng.choice([None, None, 'latin-1'])}
+                               for _ in range(rng.randint(0, 3))]
         opts = {}
         if rng.random() < 0.5:
             opts['b_lto'] = rng.choice(['true', 'false'])
@@ -163,6 +168,26 @@ class Check:
             elif mode == 'command':
                 add.append("configure_file(output: 'c06_cmd.h', command: [py, files('gen.py'), 'define', '@OUTPUT@', 'CMD_VAL', '7'])\n")
                 cfg_outputs.append('c06_cmd.h')
+        for ti, tp in enumerate(ex.get('templates', [])):
+            nl = {'lf': ['\n'], 'crlf': ['\r\n'], 'cr': ['\r'], 'mixed': ['\r\n', '\n', '\r\n', '\n', '\n']}[tp['nl']]
+            if tp['fmt'] == 'meson':
+                body = ['/* template %d */' % ti, '#mesondefine TZ_FLAG', '#mesondefine TZ_UNSET', '#define TZ_NAME "@TZ_NAME@"', 'static const int tz_val = @TZ_VAL@;', '']
+            elif tp['fmt'] == 'cmake':
+                body = ['/* template %d */' % ti, '#cmakedefine TZ_FLAG', '#cmakedefine TZ_UNSET', '#define TZ_NAME "${TZ_NAME}"', 'static const int tz_val = ${TZ_VAL};', '']
+            else:
+                body = ['/* template %d */' % ti, '#cmakedefine TZ_FLAG', '#cmakedefine01 TZ_UNSET', '#define TZ_NAME "@TZ_NAME@"', 'static const int tz_val = @TZ_VAL@;', '']
+            if tp.get('encoding'):
+                body[0] = '/* template %d caf\u00e9 */' % ti
+            text = ''.join(l + nl[i % len(nl)] for i, l in enumerate(body))
+            tf = os.path.join(sd, f'tmpl{ti}.h.in')
+            with open(tf, 'w', encoding=tp.get('encoding') or 'utf-8', newline='') as f:
+                f.write(text)
+            if tp.get('exec'):
+                os.chmod(tf, 0o755)
+            enc = f", encoding: '{tp['encoding']}'" if tp.get('encoding') else ''
+            add.append(f"tdata{ti} = configuration_data()\ntdata{ti}.set('TZ_FLAG', true)\ntdata{ti}.set('TZ_NAME', 'name{ti}')\ntdata{ti}.set('TZ_VAL', {ti + 3})\n"
+                       f"configure_file(input: 'tmpl{ti}.h.in', output: 'c06_tmpl{ti}.h', configuration: tdata{ti}, format: '{tp['fmt']}'{enc})\n")
+            cfg_outputs.append(f'c06_tmpl{ti}.h')
         if ex.get('ext_deps'):
             # external dependencies held in variables: they live in coredata's dependency cache across reconfigures
             head.append("thr_dep = dependency('threads')\n"
